@@ -631,6 +631,43 @@ def gen_c16(rng, eof_step: Optional[int] = None) -> Dict[str, Any]:
     return {"engine": "tcp", "config": cfg, "steps": uidify(steps)}
 
 
+C16_CASES = [(mask, special, toggle, upd, eof) for mask in range(32) for special in (False, True)
+             for toggle in (False, True) for upd in (False, True) for eof in (None, 0, 1, 2, 3)]
+
+
+def gen_c16_systematic(rng, index: int) -> Dict[str, Any]:
+    """Every subset of the five settings x remote kind x update-only flag x an empty reply at each step (or none)."""
+    mask, special, toggle, upd, eof = C16_CASES[index % len(C16_CASES)]
+    cfg = base_config(rng)
+    devices, clients = make_clients(rng, 1, ["breeze"])
+    cl = clients[0]
+    cl["irset"] = irsets.gen_irset(rng, special=special, toggle=toggle, density=rng.choice([1.0, 1.0, 0.7]))
+    cap = irsets.capabilities(cl["irset"])
+    devices[0]["state"] = gen_breeze_state(rng, cl["irset"]["IRSetID"])
+    devices[0]["state"]["t_mode"] = rng.choice(cap["modes"])
+    cfg["devices"], cfg["clients"] = devices, clients
+    a: Dict[str, Any] = {}
+    if mask & 1:
+        a["state"] = rng.choice(["ON", "OFF"])
+    if mask & 2:
+        a["mode"] = {1: "AUTO", 2: "DRY", 3: "FAN", 4: "COOL", 5: "HEAT"}[rng.choice(cap["modes"])]
+    if mask & 4:
+        a["target"] = rng.choice([1, 15, 16, 24, 30, 31, 60, rng.randrange(1, 61)])
+    if mask & 8:
+        a["fan"] = rng.choice(["AUTO", "LOW", "MEDIUM", "HIGH"])
+    if mask & 16:
+        a["swing"] = rng.choice(["ON", "OFF"])
+    if upd:
+        a["update_state"] = True
+    reps: List[Optional[dict]] = [{"mode": "ok", "delay": heavy_delay(rng)} for _ in range(4)]
+    if eof is not None:
+        reps[eof] = {"mode": "eof"}
+    steps = [{"kind": "connect", "client": 0},
+             {"kind": "control_breeze_device", "client": 0, "args": a, "replies": reps},
+             {"kind": "disconnect", "client": 0}]
+    return {"engine": "tcp", "config": cfg, "steps": uidify(steps), "case": [mask, special, toggle, upd, eof]}
+
+
 LIFE_ALPHA = ["connect", "op_ok", "op_raise_reply", "op_raise_arg", "disconnect", "refused", "aenter", "aexit",
               "aexit_exc", "op_eof", "op_rst"]
 
